@@ -184,6 +184,8 @@ def check_genbank(spec, ctx):
     parts = [(spec["obj"], spec["genome"])] + [(m_["obj"], m_["genome"]) for m_ in (spec.get("more") or [])]
     if len(parts) > 1:
         ctx.nt("several_records")
+        if any(not o_.get("genes") and not o_.get("feature_collections") for o_, _ in parts):
+            ctx.label("record_without_features")
     if spec.get("chunk"):
         ctx.label("collection_on_chunk")
         if spec["chunk"][0] > 0:
@@ -336,7 +338,8 @@ def strat_genbank(draw, tier="quick"):
             return sp
     r_ = draw(st.integers(0, 7))
     if r_ <= 1:
-        sp["more"] = [draw(_one_record("s%d" % k, max_genes=2)) for k in range(draw(st.integers(1, 2)))]
+        # (a later record may hold no gene at all - a sequence nothing is annotated on yet)
+        sp["more"] = [draw(_one_record("s%d" % k, max_genes=2, min_genes=draw(st.sampled_from([1, 1, 0])))) for k in range(draw(st.integers(1, 2)))]
     elif r_ == 2 and not sp.get("chunk") and len(sp["genome"]) > 1:
         # the same annotation on a second molecule of the same name and length but other bases (an edited copy of chr1)
         g2 = sp["genome"][1:] + sp["genome"][:1]
@@ -345,8 +348,8 @@ def strat_genbank(draw, tier="quick"):
 
 
 @st.composite
-def _one_record(draw, tag, max_genes=4, isoforms=True):
-    ng = draw(st.integers(1, max_genes))
+def _one_record(draw, tag, max_genes=4, isoforms=True, min_genes=1):
+    ng = draw(st.integers(min_genes, max_genes))
     genes = []
     cursor = draw(st.integers(0, 4))
     for i in range(ng):
